@@ -15,6 +15,7 @@ import (
 	"testing"
 	"time"
 
+	"github.com/marekgalovic/anndb/cluster"
 	pb "github.com/marekgalovic/anndb/protobuf"
 	uuid "github.com/satori/go.uuid"
 	"verif/harness/mon"
@@ -52,6 +53,8 @@ func TestC18One(t *testing.T) {
 	fmt.Sscan(os.Getenv("VERIF_CASE"), &c)
 	if c%12 == 5 {
 		churnBehindLeaderlessGroup(rec, c)
+	} else if c%12 == 11 {
+		notificationContract(rec, c)
 	} else {
 		scenario(rec, c)
 	}
@@ -673,5 +676,172 @@ func churnBehindLeaderlessGroup(rec *mon.Recorder, c int) bool {
 	if rec.WantSample() {
 		rec.Sample(replay())
 	}
+	return true
+}
+
+// notificationContract monitors the address book's change notifications on
+// their own (no servers): the membership log's apply calls AddNode/RemoveNode
+// and must never wait for the subscriber, which may be stalled for as long as
+// it likes, take changes one at a time, or in bursts. Seeded scripts
+// interleave bursts of changes with subscriber steps; every call runs under a
+// watchdog. A call that is still parked after the watchdog while the
+// subscriber is stalled is a violation if the dump shows it parked in a
+// channel send below the notification code (the sender has nothing else to
+// wait for: the locks it takes are free). Delivery is checked too: every
+// change arrives exactly once, in order.
+func notificationContract(rec *mon.Recorder, c int) bool {
+	rng := rec.Rand("c18-notify", c)
+	desc := fmt.Sprintf("case=%d notification_contract=true", c)
+	rec.Current(desc)
+	rounds := rec.N(40, 120)
+	for round := 0; round < rounds; round++ {
+		conn, err := cluster.NewConn(1, "self", "")
+		if err != nil {
+			rec.Inconclusive(desc + ": " + err.Error())
+			return true
+		}
+		ch := conn.NodeChangesNotifications()
+		var script []string
+		type change struct {
+			add bool
+			id  uint64
+		}
+		var sent []change
+		received := 0
+		present := map[uint64]bool{}
+		nextId := uint64(100)
+		fail := func(sym, detail string) bool {
+			rec.Violation("notify:"+sym, fmt.Sprintf("%s round=%d: %s | script: %s", desc, round, detail, strings.Join(script, " ")), map[string]interface{}{"case": c, "round": round, "seed": rec.Seed(), "script": script})
+			rec.Case(mon.Digest(desc, "failed"), true)
+			return true
+		}
+		take := func(n int) (string, bool) {
+			for i := 0; i < n; i++ {
+				select {
+				case ev, ok := <-ch:
+					if !ok || ev == nil {
+						return "subscription closed", false
+					}
+					if received >= len(sent) {
+						return fmt.Sprintf("change %+v delivered but never sent", *ev), false
+					}
+					want := sent[received]
+					gotAdd := ev.Type == cluster.NodesChangeAddNode
+					if gotAdd != want.add || ev.NodeId != want.id {
+						return fmt.Sprintf("delivery %d is {add=%v id=%d}, sent {add=%v id=%d}", received, gotAdd, ev.NodeId, want.add, want.id), false
+					}
+					received++
+				case <-time.After(20 * time.Second):
+					return fmt.Sprintf("change %d of %d sent was not delivered within 20 s", received, len(sent)), false
+				}
+			}
+			return "", true
+		}
+		// half of the scripts walk around the channel's capacity in single
+		// steps (fill to 8..14 pending, then one change or one delivery at a
+		// time); the others mix bursts and deliveries freely
+		boundary := round%2 == 0
+		steps := 6 + rng.Intn(20)
+		if boundary {
+			steps = 12 + rng.Intn(30)
+		}
+		for st := 0; st < steps; st++ {
+			sendNow := rng.Intn(3) > 0
+			if boundary {
+				sendNow = st == 0 || rng.Intn(2) == 0
+			}
+			if sendNow {
+				// a burst of changes while the subscriber is stalled
+				burst := 1 + rng.Intn(14)
+				if rng.Intn(4) == 0 {
+					burst = 1
+				}
+				if boundary {
+					burst = 1
+					if st == 0 {
+						burst = 8 + rng.Intn(7)
+					}
+				}
+				script = append(script, fmt.Sprintf("send%d", burst))
+				for b := 0; b < burst; b++ {
+					var ch change
+					if len(present) > 0 && rng.Intn(3) == 0 {
+						var oldest uint64
+						for id := range present {
+							if oldest == 0 || id < oldest {
+								oldest = id
+							}
+						}
+						ch = change{false, oldest}
+						delete(present, ch.id)
+					} else {
+						nextId++
+						ch = change{true, nextId}
+						present[ch.id] = true
+					}
+					sent = append(sent, ch)
+					done := make(chan struct{})
+					go func() {
+						defer close(done)
+						if ch.add {
+							conn.AddNode(ch.id, fmt.Sprintf("addr-%d", ch.id))
+						} else {
+							conn.RemoveNode(ch.id)
+						}
+					}()
+					select {
+					case <-done:
+						rec.Count("membership_calls_with_stalled_subscriber", 1)
+					case <-time.After(15 * time.Second):
+						// structural confirmation: parked in a channel send below the notification code
+						where := ""
+						for _, g := range dump() {
+							if g.state == "chan send" && strings.Contains(g.text, "anndb/cluster.(*Conn).") && (strings.Contains(g.text, "cluster.(*Conn).AddNode") || strings.Contains(g.text, "cluster.(*Conn).RemoveNode")) {
+								if m := repoFrame.FindStringSubmatch(g.text); m != nil {
+									where = m[1]
+								}
+							}
+						}
+						if where == "" {
+							rec.Inconclusive(fmt.Sprintf("%s round=%d: a membership call did not return within 15 s but is not parked in a send (pending %d)", desc, round, len(sent)-received))
+							return true
+						}
+						return fail("membership-change-waits-for-subscriber", fmt.Sprintf("change %d (pending behind the stalled subscriber: %d) is parked in a channel send in %s", len(sent), len(sent)-received-1, where))
+					}
+				}
+				rec.Max("most_changes_pending_behind_stalled_subscriber", int64(len(sent)-received))
+			} else {
+				// the subscriber takes a few (often exactly one)
+				pending := len(sent) - received
+				if pending == 0 {
+					continue
+				}
+				n := 1
+				if !boundary && rng.Intn(2) == 0 {
+					n = 1 + rng.Intn(pending)
+				}
+				script = append(script, fmt.Sprintf("take%d", n))
+				if msg, ok := take(n); !ok {
+					return fail("delivery", msg)
+				}
+			}
+		}
+		script = append(script, "drain")
+		if msg, ok := take(len(sent) - received); !ok {
+			return fail("delivery", msg)
+		}
+		select {
+		case ev := <-ch:
+			if ev != nil {
+				return fail("delivery", fmt.Sprintf("extra change {type=%v id=%d} after all %d were delivered", ev.Type, ev.NodeId, len(sent)))
+			}
+		case <-time.After(20 * time.Millisecond):
+		}
+		rec.Count("notification_scripts", 1)
+		rec.Count("changes_delivered_in_order", int64(received))
+		conn.Close()
+	}
+	rec.Count("progress_checks", 1)
+	rec.Case(mon.Digest(desc), true)
 	return true
 }
